@@ -375,6 +375,12 @@ func genC11(cs *CaseSet, rng *Rng, tier string, dir string) {
 				ops = append(ops, mkOp(5, "rename", c11EncPath(items), name, nn))
 				obs = append(obs, withTree(st))
 				sawRename = true
+			case r == 15 && rng.Bool(): // comment and new name in ONE request
+				c := rng.Bytes(1 + rng.Intn(20))
+				nn := append(append([]byte{}, namePool[rng.Intn(len(namePool))]...), byte('a'+rng.Intn(26)))
+				_, st := call(mobius.HandleSetFileInfo, hotline.TranSetFileInfo, append([]hotline.Field{nameF, hotline.NewField(hotline.FieldFileComment, c), hotline.NewField(hotline.FieldFileNewName, nn)}, pathField(items)...)...)
+				ops = append(ops, mkOp(11, "comment-and-rename", c11EncPath(items), name, c, nn))
+				obs = append(obs, withTree(st))
 			case r < 16: // comment
 				c := rng.Bytes(1 + rng.Intn(20))
 				_, st := call(mobius.HandleSetFileInfo, hotline.TranSetFileInfo, append([]hotline.Field{nameF, hotline.NewField(hotline.FieldFileComment, c)}, pathField(items)...)...)
